@@ -190,3 +190,25 @@ def pool_map(fn, items: Sequence, workers: int = 14, chunksize: int = 1) -> list
 
 def coq_chars(cs: Iterable[int]) -> str:
     return '[' + ';'.join(str(int(c)) for c in cs) + ']%N'
+
+
+def model_eval(exprs: Sequence[str], timeout: int = 120) -> list[str] | None:
+    """Evaluate expressions against the compiled model outside a Ck (used by --replay). None if it cannot be done."""
+    import shutil
+    import tempfile
+    d = tempfile.mkdtemp(prefix='sv_replay_', dir=os.environ.get('VERIF_SCRATCH', '/var/tmp'))
+    try:
+        body = ''.join(f'Require Import {i}.\n' for i in IMPORTS) + PRE + 'Set Printing Width 1000000.\nSet Printing Depth 1000000.\n'
+        body += ''.join(f'Eval vm_compute in ({e}).\n' for e in exprs)
+        f = os.path.join(d, 'replay.v')
+        with open(f, 'w') as fh:
+            fh.write(body)
+        r = subprocess.run(['coqc', '-Q', str(ROCQ), 'SV', '-Q', d, 'Scratch', f], capture_output=True, text=True, timeout=timeout, cwd=d)
+        if r.returncode != 0:
+            return None
+        vals = _split_evals(r.stdout + r.stderr)
+        return vals if len(vals) == len(exprs) else None
+    except (OSError, subprocess.TimeoutExpired):
+        return None
+    finally:
+        shutil.rmtree(d, ignore_errors=True)
